@@ -7,7 +7,7 @@ import tr_opdict, tr_common
 
 OPERANDS = list("abcdhkmnpqrstuvwxyz") + ["2", "3", "10", "7.5"]
 # operators whose tokens are rewritten before the row parser runs (merged, re-tagged or given special treatment): outside the model guard
-GUARD_OUT = set("|∥‖.,:;'′″‴⁗‵‶‷`_\"’‘”“") | {"-", "−", "/", "\\", "∣", "¦", "…", "⋯", "°", "!", "&", "%", "′"}
+GUARD_OUT = set("|∥‖.,:;'′″‴⁗‵‶‷`_\"’‘”“") | {"\\", "∣", "¦", "…", "⋯", "°", "&", "%", "′"}
 
 
 def to_tree(canon):
@@ -125,6 +125,13 @@ def run(ctx):
                 rows.append([("mi", "a"), ("mo", k), ("mi", "b"), ("mo", "+"), ("mi", "c"), ("mo", ")"), ("mo", "=" ), ("mi", "d")])
             elif t == 12:
                 rows.append([("mo", "("), ("mi", "b"), ("mo", "+"), ("mi", "c"), ("mo", k), ("mi", "d")])
+    # an infix operator, a prefix operator, a number, then implied multiplication with a fenced group or an operand: two
+    # rows are pending when the implied operator arrives
+    inf = [k for k, i in single if any(t == 2 for t, _ in i)]
+    for X in (inf if ctx.tier == "thorough" else rng.sample(inf, min(120, len(inf)))) + ["/", "^", "+", "=", "×", "∈", "→"]:
+        for P in ["-", "+", "¬", "±"]:
+            rows.append([("mi", "a"), ("mo", X), ("mo", P), ("mn", "2"), ("mo", "("), ("mi", "c"), ("mo", "+"), ("mi", "d"), ("mo", ")")])
+            rows.append([("mn", "1"), ("mo", X), ("mo", P), ("mn", "2"), ("mn", "3"), ("mo", "+"), ("mi", "z")])
     n_echo = len(rows)
     # exhaustive: every row up to length 3 (thorough: 5) over a 13-symbol alphabet with every kind of operator and fence
     import itertools
@@ -152,7 +159,8 @@ def run(ctx):
         tree, ops = to_tree(ri["v"])
         if tree is None:
             continue
-        in_guard = not any((r[i][0] != "mo" and r[i + 1][0] == "mo" and r[i + 1][1] in opsets["left"]) or (r[i][0] == "mi" and r[i + 1][0] == "mi") for i in range(len(r) - 1))
+        # function-name guessing (an IDENTIFIER before a left fence) and mi-sequence merging are outside the model; a number before a fence is plain implied multiplication
+        in_guard = not any((r[i][0] == "mi" and r[i + 1][0] == "mo" and r[i + 1][1] in opsets["left"]) or (r[i][0] == "mi" and r[i + 1][0] == "mi") for i in range(len(r) - 1))
         n_in_guard += 1 if in_guard else 0
         if not in_guard:
             pass        # function-name guessing (identifier before a left fence) and mi-sequence merging are outside the model
@@ -176,9 +184,49 @@ def run(ctx):
             wf = well_formed(r, opsets)
             if wf:
                 oracle_fail.append({"why": "; ".join(rc["v"]), "row": r, "tree": checks[cidx.index(idx)]["tree"], "lines": pre + [reqs[idx]]})
+    # vertical bars: a matched pair encloses exactly its contents
+    def flat(t):
+        return [t] if isinstance(t, str) else [x for k in (t if isinstance(t, list) else t.get("kids", [])) for x in flat(k)]
+
+    def groups(t, bar):
+        out = []
+        if isinstance(t, list):
+            if len(t) >= 2 and t[0] == bar and t[-1] == bar:
+                out.append([x for x in flat(t[1:-1]) if x not in ("\u2062", "\u2061", "\u2063", "\u2064")])
+            for k in t:
+                out += groups(k, bar)
+        elif isinstance(t, dict):
+            for k in t.get("kids", []):
+                out += groups(k, bar)
+        return out
+
+    SIMPLE = [["x"], ["x", "+", "y"], ["-", "x"], ["x", "y"], ["x", "+", "y", "-", "1"], ["2", "x"]]
+    COMPLEX = [["x", "+", "y", "z"], ["a", "b", "+", "c"], ["x", "=", "y", "+", "1"], ["-", "x", "+", "y", "z"]]
+    CONTEXTS = [lambda g: g + ["+", "z"], lambda g: ["a", "+"] + g, lambda g: ["2"] + g + ["z"], lambda g: g, lambda g: g + ["=", "3"], lambda g: ["a", "=", "("] + g + [")", "-", "1"],
+                lambda g: g + ["+"] + g]
+    bar_cases, bar_fail = [], []
+    for bar in ["|", "‖"]:
+        for kind, contents in (("simple", SIMPLE), ("complex", COMPLEX)):
+            for c in contents:
+                for cx in CONTEXTS:
+                    toks = cx([bar] + c + [bar])
+                    xml = "<math><mrow>" + "".join((f"<mn>{t}</mn>" if t[0].isdigit() else f"<mi>{t}</mi>" if t.isalpha() else f"<mo>{mml.esc_text(t)}</mo>") for t in toks) + "</mrow></math>"
+                    bar_cases.append((bar, kind, c, toks, xml))
+    rep_b = im.run([{"op": "session"}] + pre + [{"op": "set_mathml", "xml": x[4]} for x in bar_cases], prelude=pre)[1 + len(pre):]
+    for (bar, kind, c, toks, xml), r in zip(bar_cases, rep_b):
+        if r.get("r") != "ok":
+            continue
+        tree, _ = to_tree(r["v"])
+        want = toks.count(bar) // 2
+        got = [g for g in groups(tree, bar) if g == c]
+        if len(got) != want:
+            bar_fail.append({"why": f"a pair of vertical bars does not enclose exactly its contents ({kind} contents)", "row": toks, "tree": tree, "contents": c, "kind": kind,
+                             "lines": pre + [{"op": "set_mathml", "xml": xml}]})
+    oracle_fail += bar_fail
     im.close()
     mo.close()
     ctx.coverage.update({
+        "vertical_bar_rows": len(bar_cases), "vertical_bar_failures": len(bar_fail),
         "evaluations": len(rows), "distinct_nontrivial": len(nontriv),
         "rule": "table echo (every sampled dictionary entry and form between two reference operators) + generated rows of length 1-40 over all dictionary operators outside the guard list "
                 "(prefix/postfix positions, operator runs, implied multiplication, nested and unbalanced fences); tree shape compared with the model; Spec checker on every output. "
@@ -192,7 +240,7 @@ def run(ctx):
     })
     for f in oracle_fail:
         ctx.violation("implementation violates C03: " + json.dumps({k: v for k, v in f.items() if k != "lines"}, ensure_ascii=False)[:400],
-                      {"kind": "impl-vs-oracle", "case": {k: v for k, v in f.items() if k != "lines"}, "lines": f["lines"]}, tag="oracle", signature={"kind": "c03-oracle", "why": f["why"]})
+                      {"kind": "impl-vs-oracle", "case": {k: v for k, v in f.items() if k != "lines"}, "lines": f["lines"]}, tag="oracle", signature={"kind": "c03-oracle", "why": f["why"]})      # (the bar oracle's 'why' names simple / complex contents)
     found = bool(ctx.violations)
     if extraction_failed:
         ctx.violation(f"translator could not parse the operator dictionary ({extraction_failed})", {"kind": "translator", "theorem": "MC.Props.C03.*", "error": extraction_failed}, tag="translator", no_input=not found)
@@ -206,48 +254,58 @@ def run(ctx):
 
 
 def well_formed(row, opsets):
-    """The rows C03 is claimed for (DESIGN §4.1): alternating operand/operator structure with balanced fences, where
-    * an operator in prefix position is followed directly by an operand (the library picks the form from its neighbours),
-    * a postfix operator does not bind more loosely than the infix operator that follows it (otherwise no bracketing can satisfy clause (b))."""
+    """The rows C03 is claimed for (DESIGN §4.1), as a recogniser of
+         Expr := Term ((Infix)? Term)*      Term := Prefix* Atom Postfix*      Atom := operand | Left Expr Right
+    where the form of an operator is the one its position forces: in operand position it must be a prefix operator or a left
+    fence; after an operand it is a right fence (when one is open), else postfix if it cannot be infix or if no operand can
+    follow, else infix. Two extra conditions keep clause (b) satisfiable / the form unambiguous:
+    * a postfix operator does not bind more loosely than the infix operator that follows it,
+    * an operator that is followed directly by a left fence is not counted on (the library picks its form heuristically)."""
     depth = 0
-    prev = "start"
-    prios = PRIO
+    state = "want"          # want an operand / after an operand
+    n = len(row)
+
+    def starts_operand(i):
+        """does an operand start at i?  (operand, left fence, or ONE prefix operator directly followed by an operand or a left
+        fence: the library keeps a chain of prefix operators flat, so chains are not counted on)"""
+        if i < n and row[i][0] == "mo" and row[i][1] in opsets["prefix"] and row[i][1] not in opsets["left"] and row[i][1] not in opsets["right"]:
+            i += 1
+        return i < n and (row[i][0] != "mo" or row[i][1] in opsets["left"])
+
     for i, (k, v) in enumerate(row):
-        nxt = row[i + 1] if i + 1 < len(row) else None
+        nxt = row[i + 1] if i + 1 < n else None
         if k != "mo":
-            if prev == "operand":
-                pass        # implied multiplication
-            prev = "operand"
+            state = "after"
             continue
+        if nxt is not None and nxt[0] == "mo" and nxt[1] in opsets["left"] and v not in opsets["left"]:
+            return False     # operator directly before a left fence
         if v in opsets["left"]:
+            if state == "after" and False:
+                return False
             depth += 1
-            prev = "left"
+            state = "want"
         elif v in opsets["right"]:
-            if depth == 0 or prev != "operand":
+            if depth == 0 or state != "after":
                 return False
             depth -= 1
-            prev = "operand"
-        elif prev in ("start", "left", "op"):
-            if v not in opsets["prefix"] or nxt is None or nxt[0] == "mo":
+            state = "after"
+        elif state == "want":
+            if v not in opsets["prefix"] or not starts_operand(i + 1):
                 return False
-            prev = "op"
         else:
-            # after an operand: infix (operand follows) or postfix (operator / end follows)
-            if nxt is not None and (nxt[0] != "mo" or nxt[1] in opsets["left"]):
-                if v not in opsets["infix"] and v not in opsets["postfix"]:
-                    return False
-                if nxt[0] == "mo":
-                    return False     # operator directly before a left fence: the form chosen depends on heuristics
-                prev = "op"
-            else:
-                if v not in opsets["postfix"]:
-                    return False
-                if nxt is not None and nxt[1] not in opsets["right"]:
-                    # a following infix operator must not bind tighter than this postfix operator
-                    if prios.get((v, 4), 0) < prios.get((nxt[1], 2), 10 ** 6):
+            can_in, can_post = v in opsets["infix"], v in opsets["postfix"]
+            if can_in and can_post and nxt is not None and nxt[0] == "mo" and nxt[1] in opsets["prefix"] and nxt[1] in opsets["infix"]:
+                return False        # 'a ? + c' reads both as (a?)+c and as a?(+c): no unique parse
+            if can_in and starts_operand(i + 1):
+                state = "want"
+            elif can_post:
+                if nxt is not None and nxt[0] == "mo" and nxt[1] not in opsets["right"]:
+                    if PRIO.get((v, 4), 0) < PRIO.get((nxt[1], 2), 10 ** 6):
                         return False
-                prev = "operand"
-    return depth == 0 and prev == "operand"
+                state = "after"
+            else:
+                return False
+    return depth == 0 and state == "after"
 
 
 PRIO = {}
